@@ -375,7 +375,11 @@ func Exec(fsys hackpadfs.FS, st Step, hs *Handles, mt MTimeSet) (res Result) {
 	case "Chmod":
 		fillErr(&res, hackpadfs.Chmod(fsys, st.P, fs.FileMode(st.Perm)))
 	case "Chown":
-		fillErr(&res, hackpadfs.Chown(fsys, st.P, 0, 0))
+		uid, gid := 0, 0
+		if st.N != 0 {
+			uid, gid = st.N, int(st.Off) // (N, Off) = (uid, gid)
+		}
+		fillErr(&res, hackpadfs.Chown(fsys, st.P, uid, gid))
 	case "Chtimes":
 		t := time.Unix(st.MTime, 0)
 		at := t
@@ -471,6 +475,36 @@ func Exec(fsys hackpadfs.FS, st Step, hs *Handles, mt MTimeSet) (res Result) {
 		panic("fsx: unknown step kind " + st.K)
 	}
 	return
+}
+
+// CreateKeep is the Create step without the Close: the caller goes on with the handle (see HandleRoundTrip).
+func CreateKeep(fsys hackpadfs.FS, name string) (res Result, f hackpadfs.File) {
+	defer func() {
+		if r := recover(); r != nil {
+			res.Panic, res.Err = fmt.Sprint(r), "panic"
+		}
+	}()
+	f, err := hackpadfs.Create(fsys, name)
+	fillErr(&res, err)
+	return res, f
+}
+
+// HandleRoundTrip writes two bytes through a fresh handle, moves back and reads them again: what a handle that is open
+// for reading AND writing (os.Create's) can do.
+func HandleRoundTrip(f hackpadfs.File) (out string) {
+	defer func() {
+		if r := recover(); r != nil {
+			out = "panic: " + fmt.Sprint(r)
+		}
+	}()
+	_, werr := hackpadfs.WriteFile(f, []byte("cr"))
+	_, serr := hackpadfs.SeekFile(f, 0, io.SeekStart)
+	buf := make([]byte, 4)
+	n, rerr := f.Read(buf)
+	if rerr == io.EOF {
+		rerr = nil
+	}
+	return fmt.Sprintf("handle: write=%s seek=%s read=%q,%s", okFail(werr), okFail(serr), buf[:n], okFail(rerr))
 }
 
 // scribble overwrites a buffer that was handed to a write call: like the os package, a file system must have copied
